@@ -32,6 +32,15 @@ func (e *Engine) markReached(h *HarnessCfg, label string) {
 	reachedMu.Unlock()
 }
 
+var noteMu sync.Mutex
+var globalNotes = map[string]bool{}
+
+func (e *Engine) noteOnce(s string) {
+	noteMu.Lock()
+	globalNotes[s] = true
+	noteMu.Unlock()
+}
+
 func usage() {
 	fmt.Fprintln(os.Stderr, "usage: gosmt check <property> <quick|thorough> [-only harness] | gosmt replay <file> | gosmt selfcheck")
 	os.Exit(2)
@@ -368,6 +377,11 @@ func writeEvidence(verifDir, prop, tier string, seed int, eng *Engine, pc *PropC
 		"goroutines are sequentialised at visible operations; no pre-emption inside function bodies",
 		"append() reallocations get exactly the needed capacity",
 	)
+	noteMu.Lock()
+	for n := range globalNotes {
+		assumptions = append(assumptions, n)
+	}
+	noteMu.Unlock()
 	if states == 0 {
 		states = 1
 	}
